@@ -12,6 +12,7 @@ Conventions asserted (from the support page / C06):
   bit k of a connection expression (from its least significant end) joins bit k of the port, named and positional alike;
   assign -> an instance of SDN_VERILOG_ASSIGNMENT_<width> (library SDN_VERILOG_ASSIGNMENT, ports i/o) joining rhs to i, lhs to o;
   1'b0 / 1'b1 -> nets \\<const0> / \\<const1>; parameters -> VERILOG.Parameters, (* *) -> VERILOG.InlineConstraints;
+  a header port alias .p({a, b}) makes port p as wide as the list, its pins joined MSB-first to the listed 1-bit nets, and no cable p;
   the single root module is the top.
 
 style (JSON-able, part of the replay):
@@ -67,7 +68,7 @@ class Plan:
             used = set(c for (i, p, b), (c, bb) in conn.items())
             for a in d.get('assigns', []):
                 used.add(a['lhs'][0]); used.add(a['rhs'][0])
-            pn = set(p['name'] for p in d['ports'])
+            pn = set(p['name'] for p in d['ports']) | set(x for al in d.get('aliases', {}).values() for x in al)
             for c in d['cables']:
                 if c['name'] not in pn and c['width'] == 1 and c['base'] == 0 and c['name'] in used and not c.get('attrs') \
                         and c['name'] not in CONST and r.random() < style['implicit']:
@@ -182,10 +183,21 @@ class Writer:
                 self.t('parameter', k, '=', v)
             self.t(')')
         hdr = st['header'] if st['header'] != 'mixed' else r.choice(['ansi', 'names'])
+        aliases = d.get('aliases') or {}
+        if aliases:
+            hdr = 'names'                 # .port({...}) belongs to the non-ANSI header form
         self.t('(')
         for j, p in enumerate(d['ports']):
             if j:
                 self.t(',')
+            if p['name'] in aliases:
+                self.t('.' + p['name'], '(', '{')
+                for k, cn in enumerate(aliases[p['name']]):
+                    if k:
+                        self.t(',')
+                    self.t(self.ident(cn))
+                self.t('}', ')')
+                continue
             if hdr == 'ansi':
                 self.t({'IN': 'input', 'OUT': 'output', 'INOUT': 'inout'}[p['direction']])
                 self.t(*self.rng(p['width'], p['base']))
@@ -199,9 +211,18 @@ class Writer:
             for p in ports:
                 if p['name'] in done:
                     continue
+                if p['name'] in aliases:
+                    al = list(aliases[p['name']])
+                    r.shuffle(al)
+                    for cn in al:
+                        self.t({'IN': 'input', 'OUT': 'output', 'INOUT': 'inout'}[p['direction']], self.ident(cn), ';')
+                        self.nl()
+                    done.add(p['name'])
+                    continue
                 grp = [p]
                 if st['group_decl']:
-                    grp += [q for q in ports if q is not p and q['name'] not in done and q['direction'] == p['direction'] and q['width'] == p['width']]
+                    grp += [q for q in ports if q is not p and q['name'] not in done and q['name'] not in aliases
+                            and q['direction'] == p['direction'] and q['width'] == p['width']]
                 self.t({'IN': 'input', 'OUT': 'output', 'INOUT': 'inout'}[p['direction']])
                 if r.random() < 0.15:
                     self.t('wire')
@@ -222,7 +243,7 @@ class Writer:
             self.t('endmodule')
             self.nl()
             return
-        pn = set(p['name'] for p in d['ports'])
+        pn = set(p['name'] for p in d['ports']) | set(x for al in aliases.values() for x in al)
         decls = []
         for c in d['cables']:
             if c['name'] in pn:
